@@ -207,7 +207,14 @@ fn c18_text(runs: &[(usize, usize)], long_line: Option<(usize, usize)>, final_ne
         off += l.len() as u64 + 1;
     }
     let serial = records_serial(&bytes, bed);
-    for n in 1..=(lines.len() as u64 + 2) {
+    // every chunk count up to lines + 2; for files of at most 200 bytes also every count up to
+    // bytes + 3 (more chunks than bytes: the chunk size rounds to 0) and a few far larger ones
+    let mut counts: Vec<u64> = (1..=(lines.len() as u64 + 2)).collect();
+    if size <= 200 {
+        counts.extend((lines.len() as u64 + 3)..=(size + 3));
+        counts.extend([2 * size + 1, 1000, 65_536]);
+    }
+    for n in counts {
         out.count("chunkings", 1);
         match guarded(|| split_file_into_chunks_by_size(File::open(&path).unwrap(), n)) {
             Err(p) => out.fail("chunker_panicked", &tags, format!("chunks={}: {}", n, p)),
@@ -616,6 +623,11 @@ impl Check for C18 {
                     }
                     longs.push(Some((at, f)));
                 }
+                // x100 000: a line of 1.2 MB (longer than any fixed read limit) on the files of
+                // up to three runs of at most two lines
+                if runs.len() <= 3 && runs.iter().all(|r| r.1 <= 2) {
+                    longs.push(Some((at, 100_000)));
+                }
             }
             for ll in longs {
                 for final_newline in [true, false] {
@@ -705,7 +717,7 @@ const STDIN_SPELLINGS: [&str; 3] = ["-", "stdin", "/dev/stdin"];
 
 pub struct C19;
 
-const ALPHA: [&str; 11] = ["a", " ", ";", "(", ")", "[", "]", ",", "\"", "\u{e9}", "\\"];
+const ALPHA: [&str; 12] = ["a", " ", ";", "(", ")", "[", "]", ",", "\"", "\u{e9}", "\\", "\u{3000}"];
 const PREFIXES: [&str; 6] = ["", "table t \"c\" (", "table t \"c\" ( enum(", "table t \"c\" ( set(", "table t \"c\" ( int x", "table t \"c\" ( int[ "];
 const SUFFIXES: [&str; 3] = ["", " ) ", "; \"c\" )"];
 
@@ -719,6 +731,9 @@ fn supplied_schemas() -> Vec<(String, usize)> {
         ("simple point \"a helper type\" ( int x; \"x\" int y; \"y\" )\ntable main \"rows\" ( string chrom; \"c\" uint chromStart; \"s\" uint chromEnd; \"e\" string name; \"n\" uint score; \"v\" )".to_string(), 5),
         ("object big \"seven\" ( int a; \"\" int b; \"\" int c; \"\" int d; \"\" int e; \"\" int f; \"\" int g; \"\" )\ntable small \"rows\" ( string chrom; \"c\" uint chromStart; \"s\" uint chromEnd; \"e\" string name; \"n\" )".to_string(), 4),
         ("table idx \"indexes\" ( string chrom primary; \"c\" uint chromStart index; \"s\" uint chromEnd unique; \"e\" string name index[12]; \"n\" uint id auto; \"i\" )".to_string(), 5),
+        // blanks that are not ASCII (no-break space, ideographic space, em space, line separator,
+        // next line): white space like any other
+        ("table\u{a0}nbsp\u{3000}\"five fields\"\u{2003}(\nstring\u{a0}chrom;\u{a0}\"c\"\n\u{3000}uint chromStart; \"s\"\u{2028}uint\u{2003}chromEnd; \"e\"\u{85}string name;\u{a0}\u{a0}\"n\"\nuint score; \"v\"\u{3000})\u{a0}\n".to_string(), 5),
         // a backslash is an ordinary character inside a comment, also right before the closing quote
         ("table paths\n\"where things are\"\n(\nstring chrom; \"c\"\nuint chromStart; \"s\"\nuint chromEnd; \"e\"\nstring dir; \"Source directory, e.g. C:\\data\\\"\nstring name; \"a \\ b\"\n)\n".to_string(), 5),
         // non-ASCII text inside comments (units, accented names, CJK)
